@@ -64,5 +64,9 @@ def execute_route(
         decision = node.fallback
 
     validate_routing_decision(node, decision)
+    if isinstance(decision, list):
+        # the routing function may keep (and later change) the list it returned:
+        # the run, and the cache entry made from it, hold their own copy
+        decision = list(decision)
     state.routing_decisions[node.name] = decision
     return wrap_outputs(node, None)
